@@ -31,7 +31,8 @@ TRUSTED = ['A1 float == real; A2 object arrays == float arrays',
            'chain rule: d/dt f(x0 + t u) at 0 == grad f(x0).u (mathematics)']
 ASSUMPTIONS = ['steps positive; step ratio 1/q with q in (0,1); moment matrix non-singular']
 NOT_DECIDED = ['accuracy envelope for nonlinear maps (C01/C02)']
-BOUNDED = ['dimensions enumerated: quick n,m <= 3, k <= 2; thorough n in 1..8, m in 1..6, k in 1..4 (the property\'s range)']
+BOUNDED = ['integer-x: integer-typed x (3 concrete x, 5 methods) compared with float x -- executed with the real numpy, not proved',
+           'dimensions enumerated: quick n,m <= 3, k <= 2; thorough n in 1..8, m in 1..6, k in 1..4 (the property\'s range)']
 QUANTIFIED = 'A, b, x, per-coordinate steps h_j, q: universally quantified reals'
 
 METHODS = ['central', 'forward', 'backward', 'complex', 'multicomplex']
@@ -58,6 +59,7 @@ def groups(tier):
     for method in METHODS:
         out.append(('jac[%s]' % method, ('jac', method, dims(tier), [2, 4] if method in ('central', 'forward', 'complex') else [2])))
     out.append(('directionaldiff', ('dd',)))
+    out.append(('integer-x', ('intx',)))
     return out
 
 
@@ -252,7 +254,27 @@ def run_dd():
     return {}
 
 
+def _int_vec(x):
+    return np.array([x[0] * x[1], x[1] ** 2 + x[0], 2 * x[0] - x[1]])
+
+
+def _int_scalar(x):
+    return x[0] ** 2 * x[1] + 3 * x[1]
+
+
+INT_XS = [[1, 2], np.array([3, 1]), np.array([-2, 5], dtype=np.int32)]
+
+
+def run_intx():
+    from .common import integer_input_cases
+    integer_input_cases([('Jacobian', _int_vec, INT_XS, {}), ('Gradient', _int_scalar, INT_XS, {}), ('Jacobian', _int_scalar, INT_XS, {})],
+                        lambda c: ['central', 'forward', 'backward', 'complex', 'multicomplex'])
+    return {}
+
+
 def run_group(args):
+    if args[0] == 'intx':
+        return run_intx()
     if args[0] == 'jac':
         return run_jac(args[1], args[2], args[3])
     return run_dd()
@@ -261,6 +283,9 @@ def run_group(args):
 def replay_case(ob):
     import re
     nm = ob['name']
+    mm = re.search(r'integer-x/(\w+),(\w+):', nm)
+    if mm:
+        return dict(kind='common.intx', klass=mm.group(1), method=mm.group(2), f='vec2')
     mm = re.search(r'jac\[(\w+)\]/(\w+),m=(\w+),n=(\d+),k=(\w+),order=(\d+)', nm)
     if mm:
         return dict(kind='C03.affine', method=mm.group(1), klass=mm.group(2), m=mm.group(3), n=int(mm.group(4)),
